@@ -44,15 +44,16 @@ Definition sim (a b : thread) : Prop :=
 Lemma sim_refl a : sim a a. Proof. unfold sim. tauto. Qed.
 
 Lemma effect_pool a s pool' j x :
-  nth_error (s_pool (effect a s pool')) j = Some x -> exists y, nth_error pool' j = Some y /\ sim x y.
+  nth_error (s_pool (effect a s pool')) j = Some x ->
+  exists y, nth_error pool' j = Some y /\ sim x y /\ (t_run x = t_run y \/ (a = ASpawn j /\ t_run x = true)).
 Proof.
-  destruct a; cbn [effect s_pool]; try (intros H; exists x; split; [exact H | apply sim_refl]).
+  destruct a; cbn [effect s_pool]; try (intros H; exists x; split; [exact H | split; [apply sim_refl | left; reflexivity]]).
   destruct (nth_error pool' t) as [th0|] eqn:E.
   - destruct (Nat.eq_dec t j) as [->|Hne].
     + rewrite (nth_error_upd_eq _ _ _ _ E). intros H. inversion H; subst. exists th0. split; [exact E|].
-      unfold sim, set_run; cbn. tauto.
-    + rewrite nth_error_upd_neq by exact Hne. intros H. exists x. split; [exact H | apply sim_refl].
-  - intros H. exists x. split; [exact H | apply sim_refl].
+      split; [unfold sim, set_run; cbn; tauto | right; split; reflexivity].
+    + rewrite nth_error_upd_neq by exact Hne. intros H. exists x. split; [exact H | split; [apply sim_refl | left; reflexivity]].
+  - intros H. exists x. split; [exact H | split; [apply sim_refl | left; reflexivity]].
 Qed.
 
 Lemma effect_rest a s pool' :
@@ -70,7 +71,8 @@ Lemma step_inv s i s' : step s i s' ->
       forall j x, nth_error (s_pool s') j = Some x ->
         if Nat.eq_dec j i
         then sim x (mkT true (t_lab th) rest (w_after a (t_w th)) (r_after a (t_r th)))
-        else exists y, nth_error (s_pool s) j = Some y /\ sim x y)).
+        else exists y, nth_error (s_pool s) j = Some y /\ sim x y /\
+                       (t_run x = t_run y \/ (a = ASpawn j /\ t_run x = true)))).
 Proof.
   unfold step, step_fn. destruct (s_panic s) eqn:Hp; [discriminate|].
   destruct (nth_error (s_pool s) i) as [th|] eqn:Hi; [|discriminate].
@@ -81,7 +83,7 @@ Proof.
     exists th, a, rest; repeat (split; [assumption || reflexivity|]).
   - left. cbn. auto.
   - right. split; [rewrite effect_rest; exact Hp|].
-    intros j x Hx. apply effect_pool in Hx. destruct Hx as [y [Hy Hs]].
+    intros j x Hx. apply effect_pool in Hx. destruct Hx as [y [Hy [Hs Hrun]]].
     destruct (Nat.eq_dec j i) as [->|Hne].
     + rewrite (nth_error_upd_eq _ _ _ _ Hi) in Hy. inversion Hy; subst. exact Hs.
     + rewrite nth_error_upd_neq in Hy by congruence. exists y. auto.
@@ -107,7 +109,7 @@ Proof.
     + destruct Hall as [Hl [Hp [Hw Hr]]]; cbn in Hl, Hp, Hw, Hr. rewrite Hl, Hp, Hw, Hr.
       specialize (Hinv i th Hi). rewrite Hprog in Hinv. cbn [scan] in Hinv.
       apply andb_true_iff in Hinv. tauto.
-    + destruct Hall as [y [Hy [Hl [Hp [Hw Hr]]]]]. rewrite Hl, Hp, Hw, Hr. exact (Hinv j y Hy).
+    + destruct Hall as [y [Hy [[Hl [Hp [Hw Hr]]] _]]]. rewrite Hl, Hp, Hw, Hr. exact (Hinv j y Hy).
 Qed.
 
 Lemma label_inv_step labs s i s' : label_inv labs s -> step s i s' -> label_inv labs s'.
@@ -117,7 +119,7 @@ Proof.
   - unfold label_inv. rewrite Hpool. exact Hinv.
   - intros j x Hx. specialize (Hall j x Hx). destruct (Nat.eq_dec j i) as [->|Hne].
     + destruct Hall as [Hl _]; cbn in Hl. rewrite Hl. exact (Hinv i th Hi).
-    + destruct Hall as [y [Hy [Hl _]]]. rewrite Hl. exact (Hinv j y Hy).
+    + destruct Hall as [y [Hy [[Hl _] _]]]. rewrite Hl. exact (Hinv j y Hy).
 Qed.
 
 Lemma nobody_w_spec m pool j th : nobody_w m pool = true -> nth_error pool j = Some th -> ~ In m (t_w th).
@@ -156,13 +158,13 @@ Proof.
     pose proof (Hall j xj Hj) as Aj. pose proof (Hall k xk Hk) as Ak.
     destruct (Nat.eq_dec j i) as [->|Hji]; destruct (Nat.eq_dec k i) as [->|Hki]; try congruence.
     + (* j is the stepping thread, k another *)
-      destruct Aj as [_ [_ [Hw _]]]; cbn in Hw. destruct Ak as [y [Hy [_ [_ [Hyw Hyr]]]]].
+      destruct Aj as [_ [_ [Hw _]]]; cbn in Hw. destruct Ak as [y [Hy [[_ [_ [Hyw Hyr]]] _]]].
       rewrite Hw in Hm. rewrite Hyw, Hyr. apply w_after_In in Hm. destruct Hm as [Hm|Ha].
       * exact (Hinv i k th y m Hjk Hi Hy Hm).
       * subst a. cbn [guard] in Hg. apply andb_true_iff in Hg. destruct Hg as [G1 G2].
         split; [eapply nobody_w_spec; eauto | eapply nobody_r_spec; eauto].
     + (* k is the stepping thread, j another that holds m for writing *)
-      destruct Ak as [_ [_ [Hw Hr]]]; cbn in Hw, Hr. destruct Aj as [y [Hy [_ [_ [Hyw _]]]]].
+      destruct Ak as [_ [_ [Hw Hr]]]; cbn in Hw, Hr. destruct Aj as [y [Hy [[_ [_ [Hyw _]]] _]]].
       rewrite Hyw in Hm. rewrite Hw, Hr.
       assert (Hold := Hinv j i y th m Hjk Hy Hi Hm).
       split; intros Hin.
@@ -171,8 +173,100 @@ Proof.
         exact (nobody_w_spec _ _ _ _ G1 Hy Hm).
       * apply r_after_In in Hin. destruct Hin as [Hin|Ha]; [tauto|].
         subst a. cbn [guard] in Hg. exact (nobody_w_spec _ _ _ _ Hg Hy Hm).
-    + destruct Aj as [y [Hy [_ [_ [Hyw _]]]]]. destruct Ak as [z [Hz [_ [_ [Hzw Hzr]]]]].
+    + destruct Aj as [y [Hy [[_ [_ [Hyw _]]] _]]]. destruct Ak as [z [Hz [[_ [_ [Hzw Hzr]]] _]]].
       rewrite Hyw in Hm. rewrite Hzw, Hzr. exact (Hinv j k y z m Hjk Hy Hz Hm).
+Qed.
+
+(* ---------------------------------------------------------------- happens-before by spawn *)
+Definition child_running (s : state) (ic : nat) : bool :=
+  match nth_error (s_pool s) ic with Some th => t_run th | None => false end.
+
+Definition handoff_inv1 (x : N) (ip ic : nat) (s : state) : Prop :=
+  ip <> ic /\
+  (forall j th, nth_error (s_pool s) j = Some th -> j <> ip ->
+     existsb (spawns ic) (t_prog th) = false /\ (j <> ic -> existsb (accesses x) (t_prog th) = false)) /\
+  (forall th, nth_error (s_pool s) ip = Some th -> hs_ok x ic (child_running s ic) (t_prog th) = true).
+
+Definition handoff_inv (P : pmap) (s : state) : Prop :=
+  forall x ip ic, P x = Some (PHandoff ip ic) -> handoff_inv1 x ip ic s.
+
+Lemma hs_ok_mono x c p : forall sp sp', (sp' = true -> sp = true) -> hs_ok x c sp p = true -> hs_ok x c sp' p = true.
+Proof.
+  induction p as [|a r IH]; intros sp sp' Himp; cbn [hs_ok]; [auto|].
+  intros H. apply andb_true_iff in H. destruct H as [H1 H2]. apply andb_true_iff. split.
+  - destruct (accesses x a); [|reflexivity]. destruct sp'; [|reflexivity].
+    rewrite (Himp eq_refl) in H1. exact H1.
+  - eapply IH; [|exact H2]. intros H. apply orb_true_iff in H. apply orb_true_iff.
+    destruct H as [H|H]; [left; auto | right; exact H].
+Qed.
+
+Lemma existsb_tail {A} (f : A -> bool) a r : existsb f (a :: r) = false -> f a = false /\ existsb f r = false.
+Proof. cbn [existsb]. intros H. apply orb_false_iff in H. exact H. Qed.
+
+Lemma handoff_inv1_step x ip ic s i s' : handoff_inv1 x ip ic s -> step s i s' -> handoff_inv1 x ip ic s'.
+Proof.
+  intros [Hne [Hoth Hpar]] Hst. apply step_inv in Hst.
+  destruct Hst as [th [a [rest [Hi [Hrun [Hprog [_ [_ [[Hpool _]|[_ Hall]]]]]]]]]].
+  - unfold handoff_inv1, child_running. rewrite Hpool. auto.
+  - (* the child can only have become running through `ASpawn ic` executed by thread i *)
+    assert (Hcr : child_running s' ic = true -> child_running s ic = true \/ a = ASpawn ic).
+    { unfold child_running. destruct (nth_error (s_pool s') ic) as [xc|] eqn:Ec; [|discriminate].
+      intros Hr. specialize (Hall ic xc Ec). destruct (Nat.eq_dec ic i) as [->|Hci].
+      - left. rewrite Hi. exact Hrun.
+      - destruct Hall as [y [Hy [_ [Heq|[Ha _]]]]]; [left; rewrite Hy, <- Heq; exact Hr | right; exact Ha]. }
+    split; [exact Hne|]. split.
+    + intros j xj Hj Hjp. specialize (Hall j xj Hj). destruct (Nat.eq_dec j i) as [->|Hji].
+      * destruct Hall as [_ [Hp _]]; cbn in Hp. rewrite Hp.
+        destruct (Hoth i th Hi Hjp) as [A B]. rewrite Hprog in A. apply existsb_tail in A. split; [tauto|].
+        intros Hic. specialize (B Hic). rewrite Hprog in B. apply existsb_tail in B. tauto.
+      * destruct Hall as [y [Hy [[_ [Hp _]] _]]]. rewrite Hp. exact (Hoth j y Hy Hjp).
+    + intros xp Hxp. specialize (Hall ip xp Hxp). destruct (Nat.eq_dec ip i) as [->|Hpi].
+      * destruct Hall as [_ [Hp _]]; cbn in Hp. rewrite Hp.
+        specialize (Hpar th Hi). rewrite Hprog in Hpar. cbn [hs_ok] in Hpar.
+        apply andb_true_iff in Hpar. destruct Hpar as [_ Hrest].
+        eapply hs_ok_mono; [|exact Hrest]. intros Hc. apply Hcr in Hc. apply orb_true_iff.
+        destruct Hc as [Hc|Hc]; [left; exact Hc | right; subst a; cbn; apply Nat.eqb_refl].
+      * destruct Hall as [y [Hy [[_ [Hp _]] _]]]. rewrite Hp. specialize (Hpar y Hy).
+        eapply hs_ok_mono; [|exact Hpar]. intros Hc. apply Hcr in Hc. destruct Hc as [Hc|Hc]; [exact Hc|].
+        (* thread i <> ip cannot contain ASpawn ic *)
+        exfalso. assert (Hip : i <> ip) by congruence.
+        destruct (Hoth i th Hi Hip) as [A _]. rewrite Hprog in A. apply existsb_tail in A.
+        destruct A as [A _]. subst a. cbn in A. rewrite Nat.eqb_refl in A. discriminate.
+Qed.
+
+Lemma handoff_inv_step P s i s' : handoff_inv P s -> step s i s' -> handoff_inv P s'.
+Proof. intros H Hst x ip ic Hp. eapply handoff_inv1_step; eauto. Qed.
+
+Lemma nth_error_indexed {A} (l : list A) : forall k j a, nth_error l j = Some a -> In (k + j, a) (indexed k l).
+Proof.
+  induction l as [|b l IH]; intros k [|j] a H; cbn in H; try discriminate.
+  - inversion H; subst. cbn. left. f_equal. lia.
+  - cbn [indexed]. right. replace (k + S j) with (S k + j) by lia. apply IH. exact H.
+Qed.
+
+Lemma handoff_init x ip ic ths : handoff_ok x ip ic ths = true -> handoff_inv1 x ip ic (init_state ths).
+Proof.
+  unfold handoff_ok. intros H. apply andb_true_iff in H. destruct H as [H H3].
+  apply andb_true_iff in H. destruct H as [H1 H2].
+  apply negb_true_iff in H1. apply Nat.eqb_neq in H1. rewrite forallb_forall in H3.
+  assert (Hnth : forall j th, nth_error (s_pool (init_state ths)) j = Some th ->
+            exists run lab p, nth_error ths j = Some (run, lab, p) /\ th = init_thread run lab p).
+  { intros j th Hj. cbn [init_state s_pool] in Hj. rewrite nth_error_map in Hj.
+    destruct (nth_error ths j) as [[[run lab] p]|]; cbn in Hj; [|discriminate]. inversion Hj. eauto. }
+  split; [exact H1|]. split.
+  - intros j th Hj Hjp. destruct (Hnth j th Hj) as [run [lab [p [Hn ->]]]]. cbn [init_thread t_prog].
+    specialize (H3 (j, (run, lab, p)) (nth_error_indexed ths 0 j _ Hn)). cbn in H3.
+    apply Nat.eqb_neq in Hjp. rewrite Hjp in H3. apply andb_true_iff in H3. destruct H3 as [A B].
+    apply negb_true_iff in A. split; [exact A|]. intros Hjc. apply Nat.eqb_neq in Hjc. rewrite Hjc in B.
+    cbn in B. apply negb_true_iff in B. exact B.
+  - intros th Hp. destruct (Hnth ip th Hp) as [run [lab [p [Hn ->]]]]. cbn [init_thread t_prog].
+    specialize (H3 (ip, (run, lab, p)) (nth_error_indexed ths 0 ip _ Hn)). cbn in H3.
+    rewrite Nat.eqb_refl in H3.
+    assert (Hc : child_running (init_state ths) ic = false).
+    { unfold child_running. cbn [init_state s_pool]. rewrite nth_error_map.
+      destruct (nth_error ths ic) as [[[runc labc] pc]|]; cbn; [|reflexivity].
+      apply negb_true_iff in H2. exact H2. }
+    rewrite Hc. exact H3.
 Qed.
 
 (* ---------------------------------------------------------------- no race under the invariants *)
@@ -189,17 +283,18 @@ Lemma scan_head P lab w r a rest : scan P lab w r (a :: rest) = true -> access_o
 Proof. cbn [scan]. intros H. apply andb_true_iff in H. tauto. Qed.
 
 Lemma no_race_inv P labs s :
-  scan_inv P s -> mutex_inv s -> label_inv labs s ->
+  scan_inv P s -> mutex_inv s -> label_inv labs s -> handoff_inv P s ->
   (forall x t, P x = Some (PConfined t) -> unique_label t labs) ->
   ~ race s.
 Proof.
-  intros Hscan Hmut Hlab Huniq [i [j [thi [thj [x [k1 [k2 [Hij [Hi [Hj [Ni [Nj Hc]]]]]]]]]]]].
+  intros Hscan Hmut Hlab Hho Huniq [i [j [thi [thj [x [k1 [k2 [Hij [Hi [Hj [Ni [Nj Hc]]]]]]]]]]]].
+  pose proof Ni as Ni0. pose proof Nj as Nj0.
   apply next_access_head in Ni. apply next_access_head in Nj.
   destruct Ni as [ri Pi]. destruct Nj as [rj Pj].
   pose proof (Hscan i thi Hi) as Si. pose proof (Hscan j thj Hj) as Sj.
   rewrite Pi in Si. rewrite Pj in Sj. apply scan_head in Si. apply scan_head in Sj.
   assert (Hji : j <> i) by congruence.
-  destruct (P x) as [[m|t| |]|] eqn:Px.
+  destruct (P x) as [[m|t|ip ic| |]|] eqn:Px.
   - (* common lock *)
     assert (Wi : forall k, k <> KR ->
               access_ok P (t_lab thi) (t_w thi) (t_r thi)
@@ -238,6 +333,27 @@ Proof.
     apply Hij. apply (Huniq x t Px i j).
     + rewrite <- Li. exact (Hlab i thi Hi).
     + rewrite <- Lj. exact (Hlab j thj Hj).
+  - (* handed over by spawn *)
+    destruct (Hho x ip ic Px) as [Hne [Hoth Hpar]].
+    assert (Hacc : forall th k rest, t_prog th = match k with KR => ARead x | KW => AWrite x | KA => AAtomic x end :: rest ->
+                     existsb (accesses x) (t_prog th) = true).
+    { intros th k rest ->. destruct k; cbn; rewrite N.eqb_refl; reflexivity. }
+    assert (Hin : forall n th k rest, nth_error (s_pool s) n = Some th ->
+                    t_prog th = match k with KR => ARead x | KW => AWrite x | KA => AAtomic x end :: rest -> n = ip \/ n = ic).
+    { intros n th k rest Hn Hp. destruct (Nat.eq_dec n ip) as [|Hnp]; [left; auto|].
+      destruct (Nat.eq_dec n ic) as [|Hnc]; [right; auto|].
+      destruct (Hoth n th Hn Hnp) as [_ B]. rewrite (Hacc th k rest Hp) in B. specialize (B Hnc). discriminate. }
+    assert (Hrun : forall th y k, next_access th = Some (y, k) -> t_run th = true).
+    { intros th y k. unfold next_access. destruct (t_run th); [reflexivity | discriminate]. }
+    assert (Hbad : forall thp thc k rest, nth_error (s_pool s) ip = Some thp -> nth_error (s_pool s) ic = Some thc ->
+                     t_run thc = true ->
+                     t_prog thp = match k with KR => ARead x | KW => AWrite x | KA => AAtomic x end :: rest -> False).
+    { intros thp thc k rest Hp Hcn Hr Hpp. specialize (Hpar thp Hp).
+      unfold child_running in Hpar. rewrite Hcn, Hr, Hpp in Hpar. cbn [hs_ok] in Hpar.
+      destruct k; cbn [accesses] in Hpar; rewrite N.eqb_refl in Hpar; discriminate. }
+    destruct (Hin i thi k1 ri Hi Pi) as [Ei|Ei]; destruct (Hin j thj k2 rj Hj Pj) as [Ej|Ej]; subst; try congruence.
+    + exact (Hbad thi thj k1 ri Hi Hj (Hrun _ _ _ Nj0) Pi).
+    + exact (Hbad thj thi k2 rj Hj Hi (Hrun _ _ _ Ni0) Pj).
   - (* read-only *)
     destruct k1, k2; try discriminate Hc; cbn [access_ok] in Si, Sj; rewrite Px in *; discriminate.
   - (* atomic *)
@@ -255,9 +371,10 @@ Proof.
 Qed.
 
 Lemma init_invs P ths : well_locked P ths ->
-  scan_inv P (init_state ths) /\ mutex_inv (init_state ths) /\ label_inv (labels_of ths) (init_state ths).
+  scan_inv P (init_state ths) /\ mutex_inv (init_state ths) /\ label_inv (labels_of ths) (init_state ths) /\
+  handoff_inv P (init_state ths).
 Proof.
-  intros [Hscan _]. split; [|split].
+  intros [Hscan [_ Hho]]. split; [|split; [|split]]; [| | |intros x ip ic Hp; apply handoff_init; eauto].
   - intros i th Hi. cbn [init_state s_pool] in Hi. apply nth_error_map_init in Hi.
     destruct Hi as [run [lab [p [Hn ->]]]]. cbn. apply (Hscan run lab p). eapply nth_error_In; eauto.
   - intros i j thi thj m _ Hi _ Hm. cbn [init_state s_pool] in Hi. apply nth_error_map_init in Hi.
@@ -267,14 +384,15 @@ Proof.
 Qed.
 
 Lemma reachable_invs P ths s : well_locked P ths -> reachable (init_state ths) s ->
-  scan_inv P s /\ mutex_inv s /\ label_inv (labels_of ths) s.
+  scan_inv P s /\ mutex_inv s /\ label_inv (labels_of ths) s /\ handoff_inv P s.
 Proof.
   intros Hwl Hr. induction Hr as [|s i s' Hr IH Hst].
   - apply init_invs. exact Hwl.
-  - destruct IH as [A [B C]]. split; [|split].
+  - destruct IH as [A [B [C D]]]. split; [|split; [|split]].
     + eapply scan_inv_step; eauto.
     + eapply mutex_inv_step; eauto.
     + eapply label_inv_step; eauto.
+    + eapply handoff_inv_step; eauto.
 Qed.
 
 (* mutual exclusion in every reachable state of every interleaving *)
@@ -284,8 +402,8 @@ Proof. intros A B. apply (reachable_invs P ths s A B). Qed.
 (* LOCKSET SOUNDNESS: any number of threads, any programs, any interleaving, any length *)
 Theorem lockset_sound P ths : well_locked P ths -> forall s, reachable (init_state ths) s -> ~ race s.
 Proof.
-  intros Hwl s Hr. destruct (reachable_invs P ths s Hwl Hr) as [A [B C]].
-  eapply no_race_inv; eauto. destruct Hwl as [_ U]. exact U.
+  intros Hwl s Hr. destruct (reachable_invs P ths s Hwl Hr) as [A [B [C D]]].
+  eapply no_race_inv; eauto. destruct Hwl as [_ [U _]]. exact U.
 Qed.
 
 (* ================================================================ access tables *)
@@ -325,7 +443,7 @@ Proof. intros H. rewrite !memN_In. auto. Qed.
 Lemma access_ok_mono P lab w r w' r' a : incl w w' -> incl r r' ->
   access_ok P lab w r a = true -> access_ok P lab w' r' a = true.
 Proof.
-  intros Hw Hr. destruct a; cbn [access_ok]; auto; destruct (P x) as [[m|t| |]|]; auto.
+  intros Hw Hr. destruct a; cbn [access_ok]; auto; destruct (P x) as [[m|t|ip ic| |]|]; auto.
   - intros H. apply orb_true_iff in H. apply orb_true_iff.
     destruct H; [left | right]; eapply memN_incl; eauto.
   - apply memN_incl; auto.
@@ -425,6 +543,15 @@ Proof.
   apply scan_app; [|exact IH]. subst r. apply scan_block; auto.
 Qed.
 
+Lemma prot_of_no_handoff single t x ip ic : prot_of single t x <> Some (PHandoff ip ic).
+Proof.
+  unfold prot_of. destruct (entries_of t x) as [|e0 es]; [discriminate|].
+  destruct (forallb _ (e0 :: es)); [discriminate|].
+  destruct (forallb _ (e0 :: es)); [discriminate|].
+  destruct (common_lock (e0 :: es)); [discriminate|].
+  destruct (single (a_role e0) && forallb _ (e0 :: es)); discriminate.
+Qed.
+
 Lemma prot_of_confined_single single t x lab :
   prot_of single t x = Some (PConfined lab) -> single lab = true.
 Proof.
@@ -444,7 +571,9 @@ Theorem table_well_locked single t ths :
 Proof.
   intros Hok [Hfb Hsingle]. unfold locktable_ok in Hok. rewrite forallb_forall in Hok. split.
   - intros run lab p Hin. eapply scan_from_blocks; eauto.
-  - intros x lab Hp. apply Hsingle. eapply prot_of_confined_single; eauto.
+  - split.
+    + intros x lab Hp. apply Hsingle. eapply prot_of_confined_single; eauto.
+    + intros x ip ic Hp. exfalso. eapply prot_of_no_handoff; eauto.
 Qed.
 
 Theorem table_sound single t ths :
